@@ -640,6 +640,10 @@ def _node_representer(dumper, node):
                 if data is None:
                     with dumper.force_unquoted():
                         return dumper.represent_scalar(tag, '', style='')
+                if isinstance(data, str) and (isinstance(data, ConfigNode) or data):
+                    # let pyyaml quote and escape the text (a plain scalar would be resolved again when parsed):
+                    # a literal block for multi-line text where possible, double quotes otherwise
+                    return dumper.represent_scalar(tag, str(data), style=('|' if '\n' in data else '"'))
                 with dumper.force_unquoted():
                     if isinstance(data, ConfigScalar):
                         return dumper.represent_scalar(tag, repr(data._dyn_base(data)))
